@@ -54,18 +54,18 @@ const rpcIface = 0xabcdef0123456789
 var rpcQueueSize = 64
 
 type rpcEnv struct {
-	mu      sync.Mutex
-	events  []string // since the last flush
-	wire    []string // all messages sent by the Conn, canonical
-	caps    []*appCap
-	held    []*heldCall
-	t       *scriptTransport
-	conn    *rpc.Conn
-	handles []*capnp.Client
-	lcalls  []*localCall
-	done    int32
-	nDeliv  int
-	returned []int // question ids the script has sent a Return for
+	mu       sync.Mutex
+	events   []string // since the last flush
+	wire     []string // all messages sent by the Conn, canonical
+	caps     []*appCap
+	held     []*heldCall
+	t        *scriptTransport
+	conn     *rpc.Conn
+	handles  []*capnp.Client
+	lcalls   []*localCall
+	done     int32
+	nDeliv   int
+	returned []int         // question ids the script has sent a Return for
 	stall    chan struct{} // closed by fG: stalled PlaceArgs and held releases proceed
 	rawOrder bool          // report the messages of a step in send order
 }
@@ -81,13 +81,13 @@ type heldCall struct {
 }
 
 type localCall struct {
-	id     int
-	amu    sync.Mutex
-	ans    *capnp.Answer
-	rel    capnp.ReleaseFunc
-	cancel context.CancelFunc
-	res    atomic.Value // string
-	result capnp.Struct
+	id       int
+	amu      sync.Mutex
+	ans      *capnp.Answer
+	rel      capnp.ReleaseFunc
+	cancel   context.CancelFunc
+	res      atomic.Value // string
+	result   capnp.Struct
 	released bool // lY: the application released the results
 }
 
@@ -605,7 +605,8 @@ func (e *rpcEnv) peerSend(msg *capnp.Message) {
 }
 
 // resolve replaces symbolic references by what the Conn has put on the wire so far:
-//   Q<k> the k-th outstanding question id of the Conn (oldest first), X<k> the k-th export id it has named
+//
+//	Q<k> the k-th outstanding question id of the Conn (oldest first), X<k> the k-th export id it has named
 func (e *rpcEnv) resolve(op string) string {
 	if !strings.ContainsAny(op, "QX") {
 		return op
@@ -1553,8 +1554,8 @@ func outboundScript(r *lib.Rng, n int) string {
 func inboundScript(r *lib.Rng, n int) string {
 	var ops []string
 	nextQ := 0
-	var live []int      // answer ids in use (not finished)
-	var heldCalls int   // method-1 calls sent so far
+	var live []int    // answer ids in use (not finished)
+	var heldCalls int // method-1 calls sent so far
 	exports := 1
 	ops = append(ops, "pB0")
 	live = append(live, 0)
@@ -1671,14 +1672,14 @@ func rpcOracles(trace string) []string {
 		}
 		bad = append(bad, s)
 	}
-	outstandingAns := map[int]int{}  // answer id -> calls the script sent and the Conn has not answered
-	inUseQ := map[int]bool{}         // question ids of the Conn between its Boot/Call and its Finish
-	impRefs := map[int]int{}         // import id -> descriptors the script sent since the last Release
+	outstandingAns := map[int]int{} // answer id -> calls the script sent and the Conn has not answered
+	inUseQ := map[int]bool{}        // question ids of the Conn between its Boot/Call and its Finish
+	impRefs := map[int]int{}        // import id -> descriptors the script sent since the last Release
 	uncertain := map[int]bool{}
-	embargoed := map[int]bool{} // embargoes the Conn announced (Disembargo senderLoopback) and the script has not lifted yet
-	relQ := map[int]bool{} // questions whose Finish (releaseResultCaps) went out before their Return: the peer drops those caps itself
-	sentOrder := map[string]int{}    // tag -> position at which it was sent (script calls and local calls)
-	lastDeliv := map[string]int{}    // cap -> position of the last tag delivered to it
+	embargoed := map[int]bool{}   // embargoes the Conn announced (Disembargo senderLoopback) and the script has not lifted yet
+	relQ := map[int]bool{}        // questions whose Finish (releaseResultCaps) went out before their Return: the peer drops those caps itself
+	sentOrder := map[string]int{} // tag -> position at which it was sent (script calls and local calls)
+	lastDeliv := map[string]int{} // cap -> position of the last tag delivered to it
 	pos := 0
 	aborted := false
 	closedByScript := false
@@ -1701,8 +1702,8 @@ func rpcOracles(trace string) []string {
 		strings.Contains(trace, "pU") || strings.Contains(trace, "pJ") || strings.Contains(trace, "pD")
 	holding := false // between fW / fH / lS / lQ and fG
 	dirtySoFar := false
-	corruptSeen := false // a pHcorrupt op has been executed
-	peerFinished := map[string]bool{} // answer ids the peer has sent a Finish for since it last used them
+	corruptSeen := false                                // a pHcorrupt op has been executed
+	peerFinished := map[string]bool{}                   // answer ids the peer has sent a Finish for since it last used them
 	recvTotal, relTotal := map[int]int{}, map[int]int{} // descriptors received / references given back per import id, over the whole history
 	lastImports := ""
 	for _, step := range strings.Split(trace, ";") {
@@ -2133,44 +2134,44 @@ func mixedScript(r *lib.Rng, n int, hostile, faults bool) string {
 
 // directed prefixes: situations the random part rarely builds on its own
 var rpcDirected = []string{
-	"pB0,pC1:e0:8,lZ",                                  // Close while a call is running that answers its cancellation with a new capability
-	"pB0,pC1:e0:7,pF1:1",                               // the same capability twice in one Return, then Finish releasing the result caps
-	"pB0,pC1:e0:1,pC2:a1.0:7,aR0:twice,pF1:1,pF2:1",    // … through a pipelined call
-	"pB0,pC1:e0:6,pC2:a1.300:2,pF1:1,pLX1:1",           // big result, pipelined through field 300
-	"pB0,pC1:e0:8,pC2:a1.0:0,pF1:0",                    // Finish cancels a call that answers with a capability; a call was pipelined on it
-	"lB,pRQ0:boot:s1,lC0:2,pRQ0:ok:s1,lH0:0,lR0,lR1",   // the same import received twice, both handles released
-	"lB,lC0:0,lX0,pRQ1:ok:s2,lB",                       // Return for a cancelled question, then id reuse
-	"pB0,pC1:e0:4,pC2:e0:4,pF1:1,pF2:1,pL0:1",          // several references on one export given back in steps
+	"pB0,pC1:e0:8,lZ",    // Close while a call is running that answers its cancellation with a new capability
+	"pB0,pC1:e0:7,pF1:1", // the same capability twice in one Return, then Finish releasing the result caps
+	"pB0,pC1:e0:1,pC2:a1.0:7,aR0:twice,pF1:1,pF2:1",  // … through a pipelined call
+	"pB0,pC1:e0:6,pC2:a1.300:2,pF1:1,pLX1:1",         // big result, pipelined through field 300
+	"pB0,pC1:e0:8,pC2:a1.0:0,pF1:0",                  // Finish cancels a call that answers with a capability; a call was pipelined on it
+	"lB,pRQ0:boot:s1,lC0:2,pRQ0:ok:s1,lH0:0,lR0,lR1", // the same import received twice, both handles released
+	"lB,lC0:0,lX0,pRQ1:ok:s2,lB",                     // Return for a cancelled question, then id reuse
+	"pB0,pC1:e0:4,pC2:e0:4,pF1:1,pF2:1,pL0:1",        // several references on one export given back in steps
 	// embargo: a local capability comes back as receiverHosted while a call was pipelined on that result; a direct call on
 	// the resolved capability waits behind the Disembargo loop-back (the peer reflects the pipelined call as question 1001)
 	"1lB,pRQ0:boot:s1,lC0:5:k0,lP0:0:0,pRQ0:ok:r0,lH0:0,lA1:0,pC1001:e0:0,pDr0:e0,pF1001:0",
 	"1lB,pRQ0:boot:s1,lC0:5:k0,lQ0:0:0,pRQ0:ok:r0,fG,lH0:0,lA1:0,pC1001:e0:0,pDr0:e0", // the Return arrives while the pipelined call is being built
-	"1lB,pRQ0:boot:s1,lC0:5:k0,lP0:0:0,pRQ0:ok:r0,lH0:0,lA1:0,pF777:0",               // the peer breaks the protocol instead of looping back
-	"1lB,pRQ0:boot:s1,lC0:5:k0,lP0:0:0,pRQ0:ok:r0,lH0:0,lA1:0,fN1,lZ,lC1:0",          // Close (abort message cannot be created) while embargoed; a call afterwards
-	"1lB,pRQ0:boot:s1,lC0:5:k0,lP0:0:0,pRQ0:ok:r0,lH0:0,lA1:0,fS1,lZ,lC1:0",          // … the abort message cannot be sent
-	"1lB,pRQ0:boot:s1,pR0:ok,lB",                                                     // a Return for a question slot that is in range but empty
-	"1lB,lB,pRQ1:boot:s1,pR1:ok:s2,lC0:0",                                            // … while other questions are outstanding
-	"1lB,pRQ0:boot:s1,lC0:5:k0,lP0:0:0,pRQ0:ok:r0,lY0,pDr0:e0,lC0:0",                  // the embargoed result is released before the Disembargo comes back
-	"1lB,pRQ0:boot:s1,lC0:5:k0,lP0:0:0,pRQ0:ok:r0,lH0:0,lY0,lR1,pDr0:e0,lC0:0",        // … all of its references are
-	"1lB,pRQ0:boot:s1,lC0:5:k0,lP0:0:0,pRQ0:ok:r0,lH0:0,lY0,pDr0:e0,lC1:0,lR1",        // … or one survives and is used afterwards
-	"1pB0,lB,lC0:0,pRQ0:boot:rX0,lR0,lZ",                                             // an embargoed bootstrap capability is released, then Close lifts the embargo
-	"1pB0,pF0:0,fW,pC1:eX0:2,pF1:1,fG,pB2",                                            // the Finish (releasing the result caps) is handled while the Return is still being written
-	"1pB0,pF0:0,fW,pC1:eX0:2,pF1:0,fG,pLX1:1,pB2",                                     // … without releaseResultCaps, then an explicit Release
-	"0lB,pRQ0:boot:s1,lC0:0,fW,lr0,pRQ0:ok:s1,fG,lH0:0,lC1:0,pRQ0:ok,lR1,lY0",         // a descriptor for an import arrives while its Release is still being written
-	"0lB,pRQ0:boot:s1,lC0:0,fW,lr0,pRQ0:ok:s1+s1,fG,lH0:0,lY0,lC1:0,pRQ0:ok,lR1",      // … two of them; the results are released first
-	"1fC,pB0,lZ",                                                                      // the transport's Close fails: Close returns, Done is closed
-	"1fC,pB0,fV,lZ",                                                                   // … after the Conn shut itself down on a receive error
-	"1fC,lB,pHabort,lZ,lZ",                                                            // … or on the peer's Abort
-	"1pHcorrupt:2:7:pHwhich/1,pB0,lB",                                                 // an unknown message whose pointer is out of bounds: the echo cannot be built; the next Bootstrap is answered
-	"1pHcorrupt:2:12:pHwhich/1,pB0,pC1:e0:0",                                          // … a far pointer into a segment that does not exist
+	"1lB,pRQ0:boot:s1,lC0:5:k0,lP0:0:0,pRQ0:ok:r0,lH0:0,lA1:0,pF777:0",                // the peer breaks the protocol instead of looping back
+	"1lB,pRQ0:boot:s1,lC0:5:k0,lP0:0:0,pRQ0:ok:r0,lH0:0,lA1:0,fN1,lZ,lC1:0",           // Close (abort message cannot be created) while embargoed; a call afterwards
+	"1lB,pRQ0:boot:s1,lC0:5:k0,lP0:0:0,pRQ0:ok:r0,lH0:0,lA1:0,fS1,lZ,lC1:0",           // … the abort message cannot be sent
+	"1lB,pRQ0:boot:s1,pR0:ok,lB",                                                 // a Return for a question slot that is in range but empty
+	"1lB,lB,pRQ1:boot:s1,pR1:ok:s2,lC0:0",                                        // … while other questions are outstanding
+	"1lB,pRQ0:boot:s1,lC0:5:k0,lP0:0:0,pRQ0:ok:r0,lY0,pDr0:e0,lC0:0",             // the embargoed result is released before the Disembargo comes back
+	"1lB,pRQ0:boot:s1,lC0:5:k0,lP0:0:0,pRQ0:ok:r0,lH0:0,lY0,lR1,pDr0:e0,lC0:0",   // … all of its references are
+	"1lB,pRQ0:boot:s1,lC0:5:k0,lP0:0:0,pRQ0:ok:r0,lH0:0,lY0,pDr0:e0,lC1:0,lR1",   // … or one survives and is used afterwards
+	"1pB0,lB,lC0:0,pRQ0:boot:rX0,lR0,lZ",                                         // an embargoed bootstrap capability is released, then Close lifts the embargo
+	"1pB0,pF0:0,fW,pC1:eX0:2,pF1:1,fG,pB2",                                       // the Finish (releasing the result caps) is handled while the Return is still being written
+	"1pB0,pF0:0,fW,pC1:eX0:2,pF1:0,fG,pLX1:1,pB2",                                // … without releaseResultCaps, then an explicit Release
+	"0lB,pRQ0:boot:s1,lC0:0,fW,lr0,pRQ0:ok:s1,fG,lH0:0,lC1:0,pRQ0:ok,lR1,lY0",    // a descriptor for an import arrives while its Release is still being written
+	"0lB,pRQ0:boot:s1,lC0:0,fW,lr0,pRQ0:ok:s1+s1,fG,lH0:0,lY0,lC1:0,pRQ0:ok,lR1", // … two of them; the results are released first
+	"1fC,pB0,lZ",                             // the transport's Close fails: Close returns, Done is closed
+	"1fC,pB0,fV,lZ",                          // … after the Conn shut itself down on a receive error
+	"1fC,lB,pHabort,lZ,lZ",                   // … or on the peer's Abort
+	"1pHcorrupt:2:7:pHwhich/1,pB0,lB",        // an unknown message whose pointer is out of bounds: the echo cannot be built; the next Bootstrap is answered
+	"1pHcorrupt:2:12:pHwhich/1,pB0,pC1:e0:0", // … a far pointer into a segment that does not exist
 	"1pB0,pHcorrupt:2:7:pJ,pC1:e0:0,lB",
 	"0lB,pRQ0:boot:s1,lS0:0,lr0,lB,pRQ0:boot:s1,lR1,lB,pRQ0:boot:s1,fG,lC2:0,pRQ0:ok,pRQ0:ok,lR2", // the Shutdown of a client of an earlier entry runs after the entry was dropped and created again
-	"1lB,fH,pRQ0:boot:s1,lB,fG,pRQ0:boot:s1",                                         // a new question while the Return's Finish is still to be sent
-	"1lB,lB,pRQ0:boot:s1,lS0:0,lr0,pRQ0:boot:s1,fG,lR1",                               // a reference to an import arrives while its last handle is being released
-	"1lB,lB,pRQ0:boot:s1,lS0:0,lr0,pRQ0:boot:s1,lR1,fG",                               // … and the newer client goes away first
-	"1lB,pRQ0:boot:s1,lC0:0,fN1,lX0,pRQ0:ok,lC0:0,lC0:0",                              // the Finish of a cancelled call cannot be sent; its Return arrives; new calls
-	"1lB,pRQ0:boot:s1,lC0:0,fW,lX0,pRQ0:ok,fG,lC0:0,lZ",                               // the Return of a cancelled call arrives while its Finish is still being written
-	"1lB,pRQ0:boot:s1,lC0:0,fW,lA0:0,lX0,pRQ0:ok,fG,lZ",                               // … or while another call holds the sender lock
+	"1lB,fH,pRQ0:boot:s1,lB,fG,pRQ0:boot:s1",                                                      // a new question while the Return's Finish is still to be sent
+	"1lB,lB,pRQ0:boot:s1,lS0:0,lr0,pRQ0:boot:s1,fG,lR1",                                           // a reference to an import arrives while its last handle is being released
+	"1lB,lB,pRQ0:boot:s1,lS0:0,lr0,pRQ0:boot:s1,lR1,fG",                                           // … and the newer client goes away first
+	"1lB,pRQ0:boot:s1,lC0:0,fN1,lX0,pRQ0:ok,lC0:0,lC0:0",                                          // the Finish of a cancelled call cannot be sent; its Return arrives; new calls
+	"1lB,pRQ0:boot:s1,lC0:0,fW,lX0,pRQ0:ok,fG,lC0:0,lZ",                                           // the Return of a cancelled call arrives while its Finish is still being written
+	"1lB,pRQ0:boot:s1,lC0:0,fW,lA0:0,lX0,pRQ0:ok,fG,lZ",                                           // … or while another call holds the sender lock
 }
 
 func genRPCCheck(rec *lib.Rec, r *lib.Rng, n int, hostile, faults bool) {
